@@ -32,6 +32,23 @@ CLAIMED = {
              "recursion F-REC-UNIFY as a known finding. Does not decide totality in general nor re-encoding equality.",
         note=TRUST + "Assumes PostOrderIter's index bookkeeping (C18) and the bit reader's arithmetic (C13), which are not decided.",
         design="3/C02"),
+    "C03": dict(
+        engine="simp-facts + rules + clang AST (cside.py, cbody.py)",
+        technique="sibling-implementation comparison: per-combinator tag codes, IVs, SHA-256 compression recipes, cost and width formulas extracted from Rust MIR and from clang's AST of the C reference (per-tag straight-line execution of switch bodies), normalised over the language's typing rules (max-plus normal form for arithmetic)",
+        text="Decides that Rust and the vendored C reference implement the same recipe row by row, which is a necessary condition "
+             "for the roots, verdicts and costs to agree: (tags) every combinator's bit code and payload in the Rust codec is the "
+             "code/subcode on which C's decodeNode assigns the corresponding tag, fail is exactly the code C refuses, the reserved code "
+             "is unused by redeem-time nodes; (iv) the IV every Cmr/Amr/Imr/Tmr constructor starts from is byte-equal to the IV C's "
+             "cmrIV/amrIV/imrIV/tmrIV select for that tag, including the identity IV that Rust computes from its tag string; (recipe) "
+             "per algebra and combinator the sequence of compressions - zero block, child roots, type roots of which type position, "
+             "compact witness hash, in which half and order - equals what dag.c/type.c execute for that tag, the arguments being the "
+             "ones RedeemData::new actually passes; (cost) the cost NodeBounds computes with those arguments equals analyseBounds' cost "
+             "as a max-plus polynomial; (width) the bit widths of unit/sum/product. Equality of the resulting hashes and verdicts for all "
+             "programs is runtime behaviour and is not decided; the SHA-256 padding arithmetic of compact_value, the word-CMR loop, "
+             "the has_padding fast path and type inference are outside these clauses.",
+        note=TRUST + "Type positions named differently on the two sides (e.g. COMP_B = source of the right child vs. target of the left "
+             "child) are identified through the typing rules table shared with C04.rules. Jets' roots and costs are C14.",
+        design="3/C03"),
     "C04": dict(
         technique="provenance shapes of constructors vs typing rules (up to renaming); dominator rules; guard-liveness + call-graph lock rule",
         text="Decides that each of the 18 Arrow constructors builds exactly the typing rule of its combinator (shared/independent "
